@@ -119,7 +119,7 @@ pub fn job_bytes(params: &BrotliEncoderParams, input: &[u8], i: usize, t: usize)
         let result = state.compress_stream(BrotliEncoderOperation::BROTLI_OPERATION_FINISH, &mut available_in, &input[cur..hi], &mut next_in_offset, &mut available_out, &mut mem[..], &mut out_offset, &mut None, &mut |_a, _b, _c, _d| ());
         cur += next_in_offset;
         rounds += 1;
-        if result { res = Ok(out_offset); break; } else if available_out == 0 { res = Err("insufficient".to_string()); break; }
+        if result && state.is_finished() { res = Ok(out_offset); break; } else if result || available_out == 0 { res = Err("insufficient".to_string()); break; }
         if rounds > 1000 { res = Err("livelock".to_string()); break; }
     }
     let fin = state.is_finished();
@@ -254,7 +254,7 @@ fn probe(args: &Args) {
 
 /// one `compress_stream` call of a recomputed job
 #[derive(Clone)]
-pub struct CallObs { pub result: bool, pub consumed: usize, pub produced: Vec<u8>, pub panicked: bool }
+pub struct CallObs { pub result: bool, pub finished: bool, pub consumed: usize, pub produced: Vec<u8>, pub panicked: bool }
 /// a job recomputed through the public API as `compress_part` does it
 #[derive(Clone)]
 pub struct JobObs { pub token: String, pub bytes: Option<Vec<u8>>, pub calls: Vec<CallObs>, pub finished: bool, pub lo: usize, pub hi: usize, pub dict_pos: u64 }
@@ -283,15 +283,16 @@ fn one_job(params: &BrotliEncoderParams, input: &[u8], i: usize, t: usize, hashe
             let before = out_offset;
             let result = state.compress_stream(BrotliEncoderOperation::BROTLI_OPERATION_FINISH, &mut available_in, &input[cur..hi], &mut next_in_offset, &mut available_out, &mut mem[..], &mut out_offset, &mut None, &mut |_a, _b, _c, _d| ());
             cur += next_in_offset;
-            calls.push(CallObs { result, consumed: next_in_offset, produced: mem[before..out_offset].to_vec(), panicked: false });
-            if result { token = format!("ok:{}", hex(&mem[..out_offset])); bytes = Some(mem[..out_offset].to_vec()); break; } else if available_out == 0 { token = "err".to_string(); break; }
+            let fin = state.is_finished();
+            calls.push(CallObs { result, finished: fin, consumed: next_in_offset, produced: mem[before..out_offset].to_vec(), panicked: false });
+            if result && fin { token = format!("ok:{}", hex(&mem[..out_offset])); bytes = Some(mem[..out_offset].to_vec()); break; } else if result || available_out == 0 { token = "err".to_string(); break; }
             if calls.len() > 64 { token = "spin".to_string(); break; }
         }
         let finished = state.is_finished();
         brotli::enc::encode::BrotliEncoderDestroyInstance(&mut state);
         JobObs { token, bytes, calls, finished, lo, hi, dict_pos }
     }));
-    match r { Ok(j) => j, Err(_) => JobObs { token: "panic".into(), bytes: None, calls: vec![CallObs { result: false, consumed: 0, produced: vec![], panicked: true }], finished: false, lo, hi, dict_pos: 0 } }
+    match r { Ok(j) => j, Err(_) => JobObs { token: "panic".into(), bytes: None, calls: vec![CallObs { result: false, finished: false, consumed: 0, produced: vec![], panicked: true }], finished: false, lo, hi, dict_pos: 0 } }
 }
 
 /// all jobs of one CompressMulti call, recomputed; with `favor_cpu_efficiency` the shared index is
@@ -358,7 +359,8 @@ fn gen_case(rng: &mut Rng, small: bool) -> Case {
             _ => (rng.range(10, 24) as i32, rng.range(1, 20000) as usize),
         }
     };
-    let large = rng.chance(1, 12);
+    let lgwin = if q >= 10 { lgwin.min(if rng.chance(1, 12) && t <= 3 { 22 } else { 18 }) } else if lgwin > 20 && !(t <= 4 || rng.chance(1, 6)) { 20 } else { lgwin };
+    let large = rng.chance(1, 12) && q < 10 && t <= 4;
     let lgwin = if large && rng.chance(1, 2) { rng.range(25, 30) as i32 } else if rng.chance(1, 30) { *rng.pick(&[0, 5, 9, 25, 40]) } else { lgwin };
     let n = if lgwin > 24 && large { n.min(20000) } else { n };
     let size_hint = if rng.chance(1, 10) { *rng.pick(&[1usize << 20, (1 << 22) + 1, 100, n]) } else { 0 };
@@ -479,7 +481,7 @@ fn corr_case(c: &Case, lines: &mut Vec<(String, String)>, rep: &mut Report, pool
     for (i, j) in jobs.iter().enumerate() {
         lines.push((format!("multi range {} {} {}", i, t, n), format!("ok {} {}", j.lo, j.hi)));
         lines.push((format!("multi max {}", j.hi - j.lo), format!("{}", BrotliEncoderMaxCompressedSize(j.hi - j.lo))));
-        let calls: Vec<String> = j.calls.iter().map(|k| if k.panicked { "P".to_string() } else { format!("{}:{}:{}", k.result as u8, k.consumed, hex(&k.produced)) }).collect();
+        let calls: Vec<String> = j.calls.iter().map(|k| if k.panicked { "P".to_string() } else { format!("{}:{}:{}:{}", k.result as u8, k.finished as u8, k.consumed, hex(&k.produced)) }).collect();
         lines.push((format!("multi part {} {} {} {}", i, t, n, calls.join(" ")), j.token.clone()));
         if i != 0 && j.token != "panic" && !(c.favor && t > 1) {
             // position arithmetic of the dictionary call (real encoder state) vs the model's plan
